@@ -1,5 +1,5 @@
 SPECIFICATION Spec
-CONSTANTS K = 4  NP = 6  Continue = TRUE
+CONSTANTS K = 4  NP = 6  Continue = TRUE  AnyStart = TRUE
 CHECK_DEADLOCK FALSE
 INVARIANT IsPermutation
 INVARIANT NoDuplicates
